@@ -117,7 +117,7 @@ PROPS = {
     "C02": {
         "batches": lambda tier: conn_batches([("c02", 400), ("mixed", 150), ("long", 3)], [("c02", 6000), ("mixed", 2000), ("long", 9)])(tier)
                    + ctl_batches("vanishdata", 60, 1500, per=60)(tier) + ctl_batches("midline", 60, 1500, per=60)(tier),
-        "replay_bin": "pristine", "need": ["heads", "seq", "addr", "nohang"], "agr_need": ["heads", "seq"],
+        "replay_bin": "pristine", "need": ["heads", "seq", "addr", "nohang", "results"], "agr_need": ["heads", "seq"],
         "rule": "grammar-directed request heads (nine methods + extension tokens incl. lower-case, visible-ASCII targets, 1.0/1.1, 0..64 headers with duplicates, "
                 "empty values, colons and inner whitespace, lines > 1 KiB, heads > 64 KiB, random OWS) sent over loopback TCP and UNIX sockets; delivered "
                 "method/url/version/headers/body_length/remote_addr compared with the generator's abstract request and with the model",
